@@ -199,6 +199,13 @@ func suiteQuery(o *suiteOut, r *rng, tier string, n int) {
 		if r.chance(1, 5) {
 			tx, ty = pick(r, []float64{9e-7, -9e-7, 5e-7, 0.0005}), pick(r, []float64{9e-7, -8e-7, 0})
 		}
+		if r.chance(1, 20) {
+			// degenerate matrices: all zeros (the zero value of the field), one scale zero
+			sx, sy, tx, ty = 0, 0, 0, 0
+			if r.chance(1, 2) {
+				sx, sy = pick(r, []float64{0, 0.001}), pick(r, []float64{0, 0.001})
+			}
+		}
 		f.FontInfo.FontMatrix = [6]float64{sx, 0, 0, sy, tx, ty}
 		var present []string
 		for _, nm := range queryNames {
